@@ -229,7 +229,21 @@ def gen_config(rnd, ctx, depth=None):
         ts2[j] = [tn, ["Deleg", [PARENT], ["Explicit", rnd.choice(others)], rnd.random() < 0.5]]
         unl = [u for u in base.get("unlisten", []) if u != tn]
         sub_of[lvl] = len(classes)
-        classes.append(dict(prefix=list(base["prefix"]), traits=ts2, unlisten=unl, base=lvl, own=[tn]))
+        # half of the subclasses also set another __prefix__: inherited '*'-style attributes (whose trait objects are
+        # shared with the base class) must then resolve through the prefix of the class of the object at hand
+        pre2 = list(base["prefix"])
+        if rnd.random() < 0.5:
+            pre2 = [rnd.choice([q for q in PREFIXES if [q] != list(base["prefix"])])]
+            ctx.count("inheritance:subclass-with-other-__prefix__")
+            # the targets of the inherited '*'-style attributes under the new prefix exist on the level below
+            for tn2, spec2 in ts2:
+                if spec2[0] == "Deleg" and spec2[2][0] == "Class" and pre2 + tn2 not in level_names[lvl - 1]:
+                    extra = [pre2 + tn2, ["Normal", "KInt", rnd.randint(0, 50)]]
+                    classes[lvl - 1]["traits"].append(extra)
+                    if lvl - 1 in sub_of:
+                        classes[sub_of[lvl - 1]]["traits"].append([list(extra[0]), list(extra[1])])
+                    level_names[lvl - 1].append(pre2 + tn2)
+        classes.append(dict(prefix=pre2, traits=ts2, unlisten=unl, base=lvl, own=[tn]))
         ctx.count("inheritance:redeclared-deferring-attribute")
     objs, by_level = [], []
     for lvl in range(depth + 1):
@@ -357,6 +371,15 @@ def corpus():
                         ["Set", 2, [X, ITEMS], 14], ["Set", 2, [A], 15], ["Set", 0, [X, ITEMS], 16], ["Del", 2, [A]],
                         ["Set", 0, [X, ITEMS], 17], ["Set", 2, [PARENT], {"obj": 1}], ["Set", 1, [X, ITEMS], 18],
                         ["Set", 2, [R, ITEMS], 19]]))
+    # fifth wave (re-run of C11-u1): two classes with different __prefix__ share an inherited '*'-style attribute
+    ch_b = dict(prefix=[P_], traits=[[[PARENT], ["Link"]], [[X], ["Deleg", [PARENT], ["Class"], True]],
+                                     [[B], ["Deleg", [PARENT], ["Class"], False]]])
+    par_b = dict(par, traits=par["traits"] + [[[P_, B], ["Normal", "KInt", 8]]])
+    ch_s = dict(ch_b, prefix=[PRE_], base=1, own=[])
+    objs_b = [dict(cls=0, dict=[]), dict(cls=1, dict=[[[PARENT], {"obj": 0}]]), dict(cls=2, dict=[[[PARENT], {"obj": 0}]])]
+    cs.append(dict(classes=[par_b, ch_b, ch_s], objs=objs_b,
+                   ops=[["Set", 0, [P_, X], 10], ["Set", 0, [PRE_, X], 20], ["Set", 2, [X], 21], ["Set", 1, [X], 11],
+                        ["Set", 2, [B], 22], ["Set", 0, [PRE_, B], 23], ["Set", 0, [P_, B], 24], ["Del", 2, [B]]]))
     # fifth wave: delegate swapped for a distinct object that compares equal (value-style __eq__ on the classes): the
     # forwarder follows the current delegate, the previous one is no longer listened to
     cs.append(dict(classes=[par_a, ch], objs=objs, eq=True,
